@@ -85,7 +85,7 @@ type c12sWorld struct {
 	env     *core.Env
 	c       *c12sCase
 	hw      *c12World // origin behaviour (healthy)
-	cur     int // index of the exchange the client is running (1-based)
+	cur     int       // index of the exchange the client is running (1-based)
 	faultAt time.Duration
 }
 
